@@ -222,7 +222,8 @@ func (s *FixedSliceReader) ReadBytes(n int) []byte {
 		s.err = ErrSliceRead
 		return []byte{}
 	}
-	res := s.slice[s.pos : s.pos+n]
+	// The capacity is limited so that an append by the caller cannot write into the bytes that follow
+	res := s.slice[s.pos : s.pos+n : s.pos+n]
 	s.pos += n
 	return res
 }
